@@ -24,7 +24,7 @@ RULE = ("all registered tunings (incl. course tunings) x every string x notes 0.
         "compositions on the non-course tunings at page widths 40..160, decoded by an own tab reader. Non-trivial: a tuning with >= 4 "
         "strings and a note reachable on >= 2 strings; a fingering query with >= 2 notes and a non-empty answer; a tab with a two-digit "
         "fret or >= 2 bars."
-        ' Also: returned notes / containers are modified before the fret table is asked again; calls that fail half-way precede fingering queries; notes carrying string / fret attributes from the same or another tuning; tracks whose own tuning differs from the one passed explicitly; one Bar object standing in two tracks of a composition that are played on different tunings; the best chord fingering returned as a container of notes (return_best_as_NoteContainer) checked through the notes' string / fret attributes.')
+        ' Also: returned notes / containers are modified before the fret table is asked again; calls that fail half-way precede fingering queries; notes carrying string / fret attributes from the same or another tuning; tracks whose own tuning differs from the one passed explicitly; one Bar object standing in two tracks of a composition that are played on different tunings; the best chord fingering returned as a container of notes (return_best_as_NoteContainer) checked through the string / fret attributes of its notes.')
 ASSUMPTIONS = ["tablature is rendered for tunings without courses only; empty bars / containers are not rendered",
                "the decode clause is applied when every entry gets at least (fret digits + 1) columns, measured on the rendered "
                "beat-marker line; narrower tabs still count for the equal-line-length clause",
